@@ -4,7 +4,7 @@ import { loadModule } from '../runtime/evalhost.mjs';
 
 export const id = 'C20';
 
-export const PROVENANCE = ['vueNamed', 'vueNamedInner', 'vueAliased', 'nsMember', 'localFn', 'shadowed', 'otherModule', 'localArrowConst'];
+export const PROVENANCE = ['vueNamed', 'vueNamedInner', 'vueAliased', 'nsMember', 'localFn', 'shadowed', 'otherModule', 'localArrowConst', 'vueOtherExportAsName', 'vueNamedSplitImports'];
 export const DECLS = ['const', 'let', 'var', 'exportConst', 'exportDefault', 'assignment', 'nestedInCall', 'objectProp'];
 // user-supplied option keys: how each of props / emits / name is written (or not)
 const KEY_FORMS = ['absent', 'kv', 'strKey', 'shorthand', 'computedLit', 'viaSpread'];
@@ -14,11 +14,13 @@ const USER = { props: 'UP', emits: 'UE', name: '"UserName"' };
 
 function buildCase(rng, prov, decl, shape, forms, resolveType) {
   const L = [];
-  const callee = { vueNamed: 'defineComponent', vueNamedInner: 'defineComponent', vueAliased: 'dc', nsMember: 'Vue.defineComponent', localFn: 'defineComponent', shadowed: 'defineComponent', otherModule: 'defineComponent', localArrowConst: 'defineComponent' }[prov];
+  const callee = { vueNamed: 'defineComponent', vueNamedInner: 'defineComponent', vueAliased: 'dc', nsMember: 'Vue.defineComponent', localFn: 'defineComponent', shadowed: 'defineComponent', otherModule: 'defineComponent', localArrowConst: 'defineComponent', vueOtherExportAsName: 'defineComponent', vueNamedSplitImports: 'defineComponent' }[prov];
   const needsCtxImport = true;
   switch (prov) {
     case 'vueNamed': case 'vueNamedInner': case 'shadowed': L.push('import { defineComponent, SetupContext } from "vue";'); break;
     case 'vueAliased': L.push('import { defineComponent as dc, SetupContext } from "vue";'); break;
+    case 'vueOtherExportAsName': L.push('import { defineAsyncComponent as defineComponent } from "vue";', 'import type { SetupContext } from "vue";'); break;
+    case 'vueNamedSplitImports': L.push('import { defineComponent } from "vue";', 'import type { SetupContext } from "vue";', 'import { ref as unusedRef } from "vue";'); break;
     case 'nsMember': L.push('import * as Vue from "vue";', 'import type { SetupContext } from "vue";'); break;
     case 'otherModule': L.push('import { defineComponent } from "other";', 'import type { SetupContext } from "vue";'); break;
     default: L.push('import type { SetupContext } from "vue";');
@@ -90,13 +92,13 @@ function buildCase(rng, prov, decl, shape, forms, resolveType) {
   else if (prov === 'shadowed') L.push(`function make() {\n  const defineComponent = (...args: any[]) => recordDC("shadow", args.length, args[0], args[1]);\n  ${body.join('\n  ').replace(/^export (const|default)/, (m, w) => (w === 'const' ? 'const' : 'const dflt ='))}\n  return 1;\n}\nmake();`);
   else L.push(...body);
   if (decl === 'exportDefault' && (prov === 'vueNamedInner' || prov === 'shadowed')) return null;
-  const isVue = prov === 'vueNamed' || prov === 'vueNamedInner';
+  const isVue = prov === 'vueNamed' || prov === 'vueNamedInner' || prov === 'vueNamedSplitImports';
   const augment = resolveType && augmentable && isVue;
   const mayAugment = resolveType && augmentable && prov === 'vueAliased';
   return {
     src: L.join('\n') + '\n',
     spec: {
-      withDefault, prov, isVueRuntime: ['vueNamed', 'vueNamedInner', 'vueAliased', 'nsMember'].includes(prov), augment, mayAugment, supplied, shape, fnName, varNamed,
+      withDefault, prov, isVueRuntime: ['vueNamed', 'vueNamedInner', 'vueAliased', 'nsMember', 'vueNamedSplitImports'].includes(prov), augment, mayAugment, supplied, shape, fnName, varNamed,
       // `defineComponent(...args)` hides the argument count from the transform, but not from the runtime
       nameInjectable: resolveType && isVue && varNamed && !shape.startsWith('spread'),
       mayNameInject: resolveType && prov === 'vueAliased' && varNamed && augmentable,
@@ -193,7 +195,7 @@ export async function check(group, records) {
       return [held({ ...base, events: { defineComponent: 1, augmented: spec.augment ? 1 : 0, user_keys: Object.keys(spec.supplied).length }, shape: norm(got).slice(0, 80) })];
     }
     // non-vue callee: the call must be untouched (same argument count, no injected keys)
-    const calls = rt.log.filter((e) => e.k === 'call' && (e.id === 'recordDC' || e.id === 'other.defineComponent'));
+    const calls = rt.log.filter((e) => (e.k === 'call' && (e.id === 'recordDC' || e.id === 'other.defineComponent')) || e.k === 'defineAsyncComponent');
     if (calls.length !== 1) return [inconclusive({ ...base, reason: `expected 1 recorded call, saw ${calls.length}` })];
     const expectedArgc = { none: 1, objLiteral: 2, objLiteralTwoSpreads: 2, identOptions: 2, callOptions: 2, spreadArgsAll: 2, spreadArgsRest: 2, spreadArgsSetupOnly: 1, spreadHeadThenOpts: 2, objectFirstArg: 1, namedFnExpr: /, \{/.test(group.cases.v0.src.split('OwnName')[1] || '') ? 2 : 1 }[spec.shape];
     const argc = calls[0].id === 'recordDC' ? undefined : calls[0].argc;
